@@ -106,7 +106,22 @@ impl CertificateSigningRequestParams {
 		let csr = x509_parser::certification_request::X509CertificationRequest::from_der(csr)
 			.map_err(|_| Error::CouldNotParseCertificationRequest)?
 			.1;
-		csr.verify_signature().map_err(|_| Error::RingUnspecified)?;
+		if let Err(err) = csr.verify_signature() {
+			// x509-parser verifies with ring, which has no P-521
+			#[cfg(all(feature = "crypto", feature = "aws_lc_rs"))]
+			let verified = matches!(
+				err,
+				x509_parser::error::X509Error::SignatureUnsupportedAlgorithm
+			) && verify_ecdsa_p521(&csr);
+			#[cfg(not(all(feature = "crypto", feature = "aws_lc_rs")))]
+			let verified = {
+				let _ = err;
+				false
+			};
+			if !verified {
+				return Err(Error::RingUnspecified);
+			}
+		}
 		let alg_oid = csr
 			.signature_algorithm
 			.algorithm
@@ -285,4 +300,31 @@ impl CertificateSigningRequestParams {
 			der,
 		})
 	}
+}
+
+/// Verify a request signed with ecdsa-with-SHA512 by the P-521 key it embeds.
+#[cfg(all(feature = "x509-parser", feature = "crypto", feature = "aws_lc_rs"))]
+fn verify_ecdsa_p521(
+	csr: &x509_parser::certification_request::X509CertificationRequest<'_>,
+) -> bool {
+	use crate::ring_like::signature::{UnparsedPublicKey, ECDSA_P521_SHA512_ASN1};
+	use x509_parser::prelude::FromDer;
+	use x509_parser::x509::AlgorithmIdentifier;
+
+	let alg = &crate::PKCS_ECDSA_P521_SHA512;
+	let info = &csr.certification_request_info;
+	let signed_with = csr
+		.signature_algorithm
+		.algorithm
+		.iter()
+		.map(|oid| SignatureAlgorithm::from_oid(&oid.collect::<Vec<_>>()));
+	let key_alg = yasna::construct_der(|writer| alg.write_oids_sign_alg(writer));
+	matches!(signed_with, Some(Ok(signed_with)) if signed_with == alg)
+		&& matches!(AlgorithmIdentifier::from_der(&key_alg), Ok((_, id)) if id == info.subject_pki.algorithm)
+		&& UnparsedPublicKey::new(
+			&ECDSA_P521_SHA512_ASN1,
+			&info.subject_pki.subject_public_key.data,
+		)
+		.verify(info.raw, &csr.signature_value.data)
+		.is_ok()
 }
